@@ -133,7 +133,7 @@ CLAIMED = {
             "Per generated history (1..14 blocks, several bridge events per block, invalid commands, foreign multisends, edit-multisig with numeric/non-numeric payload) served by a scripted HTTP node, EVERY stored cursor "
             "position x EVERY node height x EVERY acknowledged nonce is restarted through the real minter.GetLatestMinterBlockAndNonce and context.LoadStatus/Commit; the persisted cursor must equal the reference "
             "(next event nonce = start + bridge events at or below last-checked block; batch and valset counters likewise) and the returned in-memory cursor. Command payloads (types, recipients in many spellings, "
-            "fee strings around the bound, negative, malformed, huge) must be accepted iff recipient valid for the type and fee a non-negative integer below amount less 1%.",
+            "fee strings around the bound, negative, malformed, huge) must be accepted iff recipient valid for the type and fee a non-negative integer below amount less 1%. A third test hands scanner results to the connector's real CreateClaims (helper binary around minter-connector/cosmos) and requires claims in nonce order with exactly the found values, accepted by the hub, deposits crediting exactly the locked amounts. Torn status files (crash during the rewrite) are enumerated too.",
             "The connector's main loop (package main: flag parsing, live RPC) is represented by its cursor invariant; the persisted state at a crash is the last Commit. One open finding (counters kept when stopping inside a multi-event block) is recorded and enumeration continues past it.",
             "DESIGN.md §4 C20"),
     "C15": ("exploration",
